@@ -635,8 +635,63 @@ func runOne(ctx context.Context, sp solverSpec, dir, base, script string, timeou
 	return solveResult{status: st, backend: sp.name, out: out.String(), dur: dur}
 }
 
+// CrossCheck: (thorough tier) every solver runs to its own answer and the answers must agree: a goal counts
+// as discharged only if at least one solver says unsat and none says sat.
+var CrossCheck bool
+
+// solveAll runs every solver to completion and combines the answers.
+func solveAll(dir, base, script string, timeoutS int) solveResult {
+	ctx, cancel := context.WithTimeout(context.Background(), time.Duration(timeoutS+2)*time.Second)
+	defer cancel()
+	ch := make(chan solveResult, len(solvers))
+	for _, sp := range solvers {
+		sp := sp
+		go func() { ch <- runOne(ctx, sp, dir, base, script, timeoutS) }()
+	}
+	var all []string
+	var sat, unsat, other *solveResult
+	var agree []string
+	maxDur := 0.0
+	for range solvers {
+		r := <-ch
+		r2 := r
+		all = append(all, fmt.Sprintf("[%s %s %.2fs]", r.backend, r.status, r.dur))
+		switch r.status {
+		case "sat":
+			sat = &r2
+		case "unsat":
+			if unsat == nil {
+				unsat = &r2
+			}
+			agree = append(agree, r.backend)
+			if r.dur > maxDur {
+				maxDur = r.dur
+			}
+		default:
+			other = &r2
+		}
+	}
+	sort.Strings(agree)
+	switch {
+	case sat != nil && unsat != nil:
+		return solveResult{status: "disagreement", backend: strings.Join(all, " "), out: "solvers disagree: " + strings.Join(all, " ") + "\n" + sat.out, dur: sat.dur}
+	case sat != nil:
+		return *sat
+	case unsat != nil:
+		return solveResult{status: "unsat", backend: strings.Join(agree, "+"), out: unsat.out, dur: maxDur}
+	}
+	other.out = strings.Join(all, "\n") + "\n" + other.out
+	if other.status == "cancelled" {
+		other.status = "timeout"
+	}
+	return *other
+}
+
 // Solve races the portfolio on one script; first definite answer wins.
 func Solve(dir, base, script string, timeoutS int) solveResult {
+	if CrossCheck {
+		return solveAll(dir, base, script, timeoutS)
+	}
 	ctx, cancel := context.WithTimeout(context.Background(), time.Duration(timeoutS+2)*time.Second)
 	defer cancel()
 	ch := make(chan solveResult, len(solvers))
